@@ -108,6 +108,17 @@ func c01Programs(tier string) (well [][]refsem.Step, ill [][]refsem.Step) {
 			well = append(well, p)
 		}
 	}
+	// mark-centred sweep: names marked twice and read back
+	markLen := 5
+	if tier == "thorough" {
+		markLen = 6
+	}
+	for _, p := range progenum.MarkPrograms(markLen) {
+		if !seen[refsem.ProgName(p)] {
+			seen[refsem.ProgName(p)] = true
+			well = append(well, p)
+		}
+	}
 	// ill-typed: also sequences that do not begin with a start
 	all := append(append([]refsem.Step{}, progenum.Starts()...), alpha...)
 	for _, a := range alpha {
